@@ -137,6 +137,7 @@ def iter_of(I, ctx, v, by_ref):
     if isinstance(v, Ref):
         tgt = I.deref(ctx, v)
         if isinstance(tgt, IterV): return tgt
+        if isinstance(tgt, str): return make_iter(list(tgt.encode()))
         if isinstance(tgt, VecV):
             # materialise the forced vector in place so element references stay valid
             if by_ref:
@@ -148,6 +149,7 @@ def iter_of(I, ctx, v, by_ref):
         raise Unsupported(f"iter over {tgt!r}")
     v = I.force(ctx, v)
     if isinstance(v, VecV): return make_iter(list(v.items))
+    if isinstance(v, str): return make_iter(list(v.encode()))
     raise Unsupported(f"iter over {v!r}")
 
 
